@@ -21,6 +21,7 @@ import re
 
 _NUM = re.compile(r"\d+")
 
+QMIN = 0
 QMAX = 1 << 58          # assumption: byte index of the cursor below 2^58 (cursor invariant offset <= 8*len(data), len(data) < 2^58)
 
 
@@ -321,8 +322,8 @@ def sub(x, y):
 def lin_range(x):
     a, c = lin_parts(x)
     if a >= 0:
-        return c, a * QMAX + c
-    return a * QMAX + c, c
+        return a * QMIN + c, a * QMAX + c
+    return a * QMAX + c, a * QMIN + c
 
 
 def ty_bits(ty):
@@ -342,6 +343,7 @@ class State(object):
         self.written = set()
         self.len_lb = None      # affine lower bound of LEN learnt from a branch
         self.len_ub = None      # affine strict upper bound (LEN < ub)
+        self.len_lb2 = None
         self.steps = 0
         self.asserts = 0
 
@@ -391,16 +393,22 @@ class Interp(object):
         a, c = lin_parts(idx)
         if end is not None:
             ea, ec = lin_parts(end)
-            if ea == a:
-                return c < ec
-            return None
-        if st.len_lb is not None:
-            la, lc = lin_parts(st.len_lb)
-            if la == a and c < lc:
+            lo, hi = lin_range(mklin(ea - a, ec - c - 1))
+            if lo >= 0:
                 return True
+            if hi < 0:
+                return False
+            return None
+        for lbv in (st.len_lb, st.len_lb2):
+            if lbv is not None:
+                la, lc = lin_parts(lbv)
+                lo, hi = lin_range(mklin(la - a, lc - c - 1))
+                if lo >= 0:
+                    return True
         if st.len_ub is not None:
             ua, uc = lin_parts(st.len_ub)
-            if ua == a and c >= uc:
+            lo, hi = lin_range(mklin(a - ua, c - uc))
+            if lo >= 0:
                 return False
         return None
 
@@ -997,7 +1005,10 @@ class Interp(object):
                     st.asserts += 1
                     self.assert_sites.add((t.get("line"), t["kind"]))
                     if isinstance(c, UBool):
-                        raise Undecided("assert %s depends on the buffer length" % t["kind"])
+                        dd = self.decide(st, c)
+                        if dd is None:
+                            raise Undecided("assert %s depends on the buffer length" % t["kind"])
+                        c = 1 if dd else 0
                     if not isinstance(c, int):
                         raise Undecided("assert %s on a non-constant" % t["kind"])
                     if bool(c) != bool(t["expected"]):
@@ -1005,6 +1016,10 @@ class Interp(object):
                     b = t["target"]
                 elif k == "switch":
                     d = self.operand(st, t["discr"])
+                    if isinstance(d, UBool):
+                        dd = self.decide(st, d)
+                        if dd is not None:
+                            d = 1 if dd else 0
                     if isinstance(d, UBool):
                         # fork; learn the bound on each side
                         for val in (1, 0):
@@ -1043,6 +1058,27 @@ class Interp(object):
             if paths > 16 or len(work) > 16:
                 raise Undecided("more than 16 abstract paths in one partition")
 
+    def decide(self, st, d):
+        """truth of  k*LEN >= lin  from the bounds learnt on this path (None = unknown)"""
+        a, c = lin_parts(d.lin)
+        if a % d.k != 0:
+            return None
+        need = (a // d.k, -((-c) // d.k))          # LEN >= need
+        r = None
+        if st.len_lb is not None:
+            la, lc = lin_parts(st.len_lb)
+            lo, hi = lin_range(mklin(la - need[0], lc - need[1]))
+            if lo >= 0:
+                r = True
+        if r is None and st.len_ub is not None:
+            ua, uc = lin_parts(st.len_ub)
+            lo, hi = lin_range(mklin(ua - need[0], uc - need[1]))
+            if hi <= 0:
+                r = False
+        if r is None:
+            return None
+        return (not r) if d.neg else r
+
     def learn(self, st, k, lin, pred):
         a, c = lin_parts(lin)
         if a % k != 0:
@@ -1050,12 +1086,27 @@ class Interp(object):
         if pred:
             # k*LEN >= a*Q + c   =>  LEN >= (a/k)*Q + ceil(c/k)
             lb = mklin(a // k, -((-c) // k))
-            if st.len_lb is None or (lin_parts(st.len_lb)[0] == lin_parts(lb)[0] and lin_parts(lb)[1] > lin_parts(st.len_lb)[1]):
+            if st.len_lb is None:
                 st.len_lb = lb
+            else:
+                oa, oc = lin_parts(st.len_lb)
+                na, nc = lin_parts(lb)
+                lo, hi = lin_range(mklin(na - oa, nc - oc))
+                if lo >= 0:
+                    st.len_lb = lb
+                elif hi > 0:
+                    st.len_lb2 = lb          # incomparable: keep both
         else:
             # k*LEN < a*Q + c  =>  LEN < (a/k)*Q + ceil(c/k)
             ub = mklin(a // k, -((-c) // k))
-            st.len_ub = ub
+            if st.len_ub is None:
+                st.len_ub = ub
+            else:
+                oa, oc = lin_parts(st.len_ub)
+                na, nc = lin_parts(ub)
+                lo, hi = lin_range(mklin(na - oa, nc - oc))
+                if hi <= 0:
+                    st.len_ub = ub
 
 
 # ------------------------------------------------------------------ specification checks
